@@ -19,7 +19,13 @@ from __future__ import annotations
 
 from typing import Any, Dict, List, Optional, Tuple
 
+import atexit
+import json
+import os
+import subprocess
+
 from ..core import HarnessError, Violation, jhash
+from .. import rsclient
 from .. import gen_enc as G
 from .. import gen_state as S
 from .. import pycore
@@ -129,7 +135,8 @@ def self_test() -> None:
     for i in range(8):
         probes.append((f"PUSHU#{i}", bytes([0x28 + i]), "PUSHU"))
         probes.append((f"POPU#{i}", bytes([0x38 + i]), "POPU"))
-    probes += [("PUSHS F", b"\x4F", "PUSHS"), ("POPS F", b"\x5F", "POPS"),
+    probes += [("MV [--S],BA", b"\xB2\x37", "MV"), ("MV [--S],X", b"\xB4\x37", "MV"),
+               ("PUSHS F", b"\x4F", "PUSHS"), ("POPS F", b"\x5F", "POPS"),
                ("CALL", b"\x04\x34\x12", "CALL"), ("CALLF", b"\x05\x34\x12\x05", "CALLF"), ("IR", b"\xFE", "IR"),
                ("RET", b"\x06", "RET"), ("RETF", b"\x07", "RETF"), ("RETI", b"\x01", "RETI")]
     for pre in PRE_CHOICES:
@@ -147,12 +154,28 @@ def self_test() -> None:
     txt = TP.text(tk[0]) if tk else ""
     if "FB" not in txt and "IMR" not in txt:
         raise HarnessError(f"C05 pair template MV (FB),n renders as {txt!r}")
+    for code, reg in ((b"\xB2\x37", "BA"), (b"\xB4\x37", "X")):
+        tk = TP.tokens(code + G.NOP_PAD, 0x31000)
+        txt = (TP.text(tk[0]) if tk else "").replace(" ", "")
+        if "[--S]" not in txt or not txt.endswith("," + reg):
+            raise HarnessError(f"C05 pair template {code.hex()} renders as {txt!r}, expected MV [--S],{reg}")
     _TESTED = True
 
 
 # ------------------------------------------------------------------------------------------------
 # generation
 # ------------------------------------------------------------------------------------------------
+# Addresses CoreRuntime's SIO stub services itself (sc62015/core/src/sio.rs: SIO_CMD42_DIRECT_INPUT_ADDR,
+# SIO_TX_WAIT_READY_ADDR, SIO_CMD41_DIRECT_OUTPUT_ADDR); rt_self_test() checks that they still are.
+HLE_ADDRS = (0xEB030, 0xEB31C, 0xEB33D)
+FULL_PAGES = tuple(range(1, 15))
+# "rt" programs stay in plainly mapped external memory of the PC-E500 model: not page 0 (LCD windows), not the
+# 0x80000-0xBFFFF internal-RAM mirror window (only its identity part 0xB8000+ is used, for stacks); a routine
+# may cross from a listed page into the next one (7 and 0xF are plain too).
+RT_PAGES = (1, 2, 3, 4, 5, 6, 0xC, 0xD, 0xE)
+CORES = ("py", "rs", "rt")
+CORE_TAG = {"py": "", "rs": "rs ", "rt": "rt "}
+
 
 def _plain_item(st: S.Stream) -> Dict[str, Any]:
     if st.chance(1, 12):
@@ -164,13 +187,21 @@ def _plain_item(st: S.Stream) -> Dict[str, Any]:
     return {"k": "plain", "b": (fixed + bytes(st.byte() for _ in range(nfree))).hex(), "fl": fl, "im": im}
 
 
+def _cj_item(st: S.Stream) -> Dict[str, Any]:
+    """Computed jump through a return to the next item (over `gap` filler bytes)."""
+    gap = st.below(4) if st.chance(1, 2) else 0
+    return {"k": "cj", "far": st.chance(1, 3), "gap": bytes(st.byte() for _ in range(gap)).hex()}
+
+
 class _Gen:
-    def __init__(self, st: S.Stream, thorough: bool) -> None:
+    def __init__(self, st: S.Stream, thorough: bool, chain: bool = False, hle: bool = False) -> None:
         self.st = st
         self.routines: List[Dict[str, Any]] = []
         self.handler: Optional[int] = None
-        self.max_routines = 7 if thorough else 5
+        self.max_routines = (7 if thorough else 5) + (1 if chain else 0)
         self.wrap_id = 0
+        self.chain = chain
+        self.hle = hle
 
     def call_item(self, flavor: str, depth: int, in_handler: bool) -> Dict[str, Any]:
         st = self.st
@@ -179,6 +210,9 @@ class _Gen:
             if self.handler is None:
                 self.handler = self.new_routine("IR", depth, True)
             callee = self.handler
+        elif self.hle and st.chance(1, 3):
+            callee = len(self.routines)
+            self.routines.append({"addr": st.choice(HLE_ADDRS), "ins": [], "flavor": flavor, "hle": True})
         else:
             callee = self.new_routine(flavor, depth, in_handler)
         it: Dict[str, Any] = {"k": "call", "flavor": flavor, "pre": pre, "callee": callee}
@@ -186,11 +220,14 @@ class _Gen:
             it["hi"] = (st.below(15) + 1) if st.chance(1, 4) else 0  # don't-care high nibble of the 3-byte target
         return it
 
+    def n_real(self) -> int:
+        return sum(1 for r in self.routines if not r.get("hle"))
+
     def body(self, depth: int, in_handler: bool, n: int, lvl: int = 0) -> List[Dict[str, Any]]:
         st = self.st
         out: List[Dict[str, Any]] = []
         for _ in range(n):
-            sel = st.below(12)
+            sel = st.below(14)
             if sel <= 5:
                 out.append(_plain_item(st))
             elif sel == 6 and lvl < 3:
@@ -211,15 +248,17 @@ class _Gen:
             elif sel in (6, 7, 8):
                 out.append(_plain_item(st))
             elif sel in (9, 10):
-                if depth > 0 and len(self.routines) < self.max_routines:
+                if depth > 0 and self.n_real() < self.max_routines:
                     out.append(self.call_item(st.choice(("CALL", "CALLF")), depth - 1, in_handler))
                 else:
                     out.append(_plain_item(st))
-            else:
-                if not in_handler and (self.handler is not None or len(self.routines) < self.max_routines):
+            elif sel == 11:
+                if not in_handler and (self.handler is not None or self.n_real() < self.max_routines):
                     out.append(self.call_item("IR", depth - 1 if depth > 0 else 0, in_handler))
                 else:
                     out.append(_plain_item(st))
+            else:
+                out.append(_cj_item(st))
         return out
 
     def new_routine(self, flavor: str, depth: int, in_handler: bool) -> int:
@@ -228,7 +267,12 @@ class _Gen:
         r: Dict[str, Any] = {"addr": None, "ins": [], "flavor": flavor}
         self.routines.append(r)
         n = 0 if st.chance(1, 6) else 1 + st.below(5)
-        ins = self.body(depth, in_handler or flavor == "IR", n)
+        inh = in_handler or flavor == "IR"
+        ins = self.body(depth, inh, n)
+        if self.chain and depth > 0 and self.n_real() < self.max_routines \
+                and not any(it["k"] == "call" and it["flavor"] != "IR" for it in ins):
+            # chain shape: every routine above the leaf level keeps a call open while deeper ones run
+            ins.insert(st.below(len(ins) + 1), self.call_item(st.choice(("CALL", "CALLF")), depth - 1, inh))
         rname, rop = RET_OF[flavor]
         pre = st.choice(PRE_CHOICES) if st.chance(1, 8) else None
         ins.append({"k": "ret", "b": ((bytes([pre]) if pre is not None else b"") + bytes([rop])).hex(),
@@ -237,10 +281,31 @@ class _Gen:
         return idx
 
 
+CJ_LEN = 7
+
+
 def item_len(it: Dict[str, Any]) -> int:
     if it["k"] == "call":
         return (1 if it.get("pre") is not None else 0) + 1 + CALL_OP[it["flavor"]][1]
+    if it["k"] == "cj":
+        return CJ_LEN + len(it.get("gap", "")) // 2
     return len(it["b"]) // 2
+
+
+def item_steps(it: Dict[str, Any]) -> int:
+    if it["k"] == "cj":
+        return 3 if it.get("far") else 4
+    return 1
+
+
+def cj_bytes(it: Dict[str, Any], a: int) -> bytes:
+    """near: NOP ; MV BA,mn ; MV [--S],BA ; RET   far: MV X,lmn ; MV [--S],X ; RETF   (both 7 bytes) + gap."""
+    t = (a + item_len(it)) & M20
+    if it.get("far"):
+        b = bytes([0x0C, t & 0xFF, (t >> 8) & 0xFF, (t >> 16) & 0x0F, 0xB4, 0x37, 0x07])
+    else:
+        b = bytes([0x00, 0x0A, t & 0xFF, (t >> 8) & 0xFF, 0xB2, 0x37, 0x06])
+    return b + bytes.fromhex(it.get("gap", ""))
 
 
 def routine_size(r: Dict[str, Any]) -> int:
@@ -257,12 +322,12 @@ def _free(used: List[Tuple[int, int]], lo: int, hi: int) -> bool:
 
 
 def _place_routine(st: S.Stream, size: int, used: List[Tuple[int, int]], page: Optional[int],
-                   classes: Tuple[str, ...], retlen: int) -> Optional[Tuple[int, str]]:
+                   classes: Tuple[str, ...], pages: Tuple[int, ...] = FULL_PAGES) -> Optional[Tuple[int, str]]:
     """Choose an address for a routine of `size` bytes (+8 NOP pad).  page: required 64 KiB page of the start
-    address (near callee) or None."""
+    address (near callee / routine with a near call to a fixed address) or None (any of `pages`)."""
     for _ in range(16):
         cls = st.choice(classes)
-        pg = page if page is not None else 1 + st.below(14)
+        pg = page if page is not None else st.choice(pages)
         base = pg << 16
         if cls == "interior":
             a = base + 0x200 + st.below(0xFC00 - size)
@@ -293,10 +358,36 @@ def _place_routine(st: S.Stream, size: int, used: List[Tuple[int, int]], page: O
     return None
 
 
-def gen_program(st: S.Stream, thorough: bool = False) -> Optional[Dict[str, Any]]:
-    g = _Gen(st, thorough)
+def _forced_page(routines: List[Dict[str, Any]], idx: int, seen: Optional[set] = None) -> Optional[int]:
+    """Page a routine must start in because it (or a near callee of it) makes a near call to a fixed address."""
+    seen = seen if seen is not None else set()
+    if idx in seen:
+        return None
+    seen.add(idx)
+    for it in routines[idx]["ins"]:
+        if it["k"] == "call" and it["flavor"] == "CALL":
+            c = routines[it["callee"]]
+            if c.get("hle"):
+                return (int(c["addr"]) >> 16) & 0xF
+            p = _forced_page(routines, it["callee"], seen)
+            if p is not None:
+                return p
+    return None
+
+
+def gen_program(st: S.Stream, thorough: bool = False, profile: str = "full") -> Optional[Dict[str, Any]]:
+    """profile "full": any page 1..14, every placement class (run on "py" and "rs");
+    profile "rt": plainly mapped memory of the machine runtime, SIO stub on (with hle callees) or off."""
+    rt = profile == "rt"
+    sio = rt and st.chance(2, 3)
+    chain = st.chance(1, 3)
+    pages = RT_PAGES if rt else FULL_PAGES
+    g = _Gen(st, thorough, chain=chain, hle=sio)
     flavor = st.choice(("CALL", "CALL", "CALLF", "CALLF", "IR"))
-    depth = st.choice((0, 1, 1, 2, 3 if thorough else 2))
+    if chain:
+        depth = st.choice((2, 3, 3, 4) if thorough else (2, 2, 3))
+    else:
+        depth = st.choice((0, 1, 1, 2, 3 if thorough else 2))
     g.routines.append({"addr": None, "ins": [], "flavor": "site"})
     top = g.call_item(flavor, depth, False)
     g.routines[0]["ins"] = [top]
@@ -305,17 +396,25 @@ def gen_program(st: S.Stream, thorough: bool = False) -> Optional[Dict[str, Any]
     used: List[Tuple[int, int]] = []
     if uses_ir:
         used.append((0xFFFE0, 0x100000))
+    if sio:
+        used.append((0xEB000, 0xEB400))
     # stacks
     regs: Dict[str, int] = {"BA": st.word(), "I": st.word(), "X": st.pointer()[0], "Y": st.pointer()[0],
                             "F": st.u32() & 0xFF}
-    labels: List[str] = []
+    labels: List[str] = ["shape:chain" if chain else "shape:tree"]
     for name in ("S", "U"):
         for _ in range(16):
             if name == "S" and st.chance(1, 4):
-                v = ((1 + st.below(14)) << 16) + st.below(6)  # frames cross a 64 KiB boundary
+                pg = (st.choice(pages) + 1) if rt else 1 + st.below(14)
+                v = (pg << 16) + st.below(6)  # frames cross a 64 KiB boundary
                 cls = "S:cross-page"
             else:
-                v = 0x1000 + st.below(0xFD000)
+                if not rt:
+                    v = 0x1000 + st.below(0xFD000)
+                elif st.chance(1, 3):
+                    v = 0xB8100 + st.below(0x7E00)
+                else:
+                    v = (st.choice(pages) << 16) + 0x1000 + st.below(0xE000)
                 cls = f"{name}:interior"
             if _free(used, v - 0x80, v + 0x20):
                 used.append((v - 0x80, v + 0x20))
@@ -328,9 +427,10 @@ def gen_program(st: S.Stream, thorough: bool = False) -> Optional[Dict[str, Any]
     # call site
     site_classes = ["interior", "interior", "interior", "site-ends-at-page-end", "site-straddle", "page-start",
                     "site-page-end"]
-    if not uses_ir:
+    forced = _forced_page(routines, 0)
+    if not uses_ir and not rt and forced is None:
         site_classes.append("site-top")
-    p = _place_routine(st, routine_size(routines[0]), used, None, tuple(site_classes), 0)
+    p = _place_routine(st, routine_size(routines[0]), used, forced, tuple(site_classes), pages)
     if p is None:
         return None
     routines[0]["addr"] = p[0]
@@ -345,19 +445,36 @@ def gen_program(st: S.Stream, thorough: bool = False) -> Optional[Dict[str, Any]
                 c = routines[it["callee"]]
                 if c["addr"] is None:
                     near = it["flavor"] == "CALL"
+                    forced = _forced_page(routines, it["callee"])
                     classes = ("interior", "interior", "interior", "ret-at-page-end", "ret-at-page-end",
-                               "page-start") + (() if near else ("straddle",))
-                    page = ((a & M20) >> 16) if near else None
-                    q = _place_routine(st, routine_size(c), used, page, classes, 0)
+                               "page-start") + (() if near or forced is not None else ("straddle",))
+                    page = ((a & M20) >> 16) if near else forced
+                    if near and forced is not None and forced != page:
+                        return None
+                    q = _place_routine(st, routine_size(c), used, page, classes, pages)
                     if q is None:
                         return None
                     c["addr"] = q[0]
                     stack.append(it["callee"])
+                elif c.get("hle") and it["flavor"] == "CALL" and ((a & M20) >> 16) != (int(c["addr"]) >> 16):
+                    return None
+            a += item_len(it)
+    # a near computed jump whose RET and continuation lie in different pages cannot work: make it a far one
+    for r in routines:
+        a = r["addr"]
+        for it in r["ins"]:
+            if it["k"] == "cj" and not it.get("far"):
+                if ((a + CJ_LEN - 1) & M20) >> 16 != ((a + item_len(it)) & M20) >> 16 or a + item_len(it) > M20:
+                    it["far"] = True
             a += item_len(it)
     regs["PC"] = routines[0]["addr"] & M20
     case = {"kind": "pair", "regs": regs, "seed": st.u32(), "imr": st.byte(),
             "imem": [[S.BP, st.byte()], [S.PX, st.byte()], [S.PY, st.byte()]],
-            "routines": [{"addr": r["addr"], "ins": r["ins"]} for r in routines], "gen_labels": labels}
+            "routines": [{k: v for k, v in (("addr", r["addr"]), ("ins", r["ins"]), ("hle", r.get("hle"))) if
+                          v is not None} for r in routines], "gen_labels": labels}
+    if rt:
+        case["core"] = "rt"
+        case["sio"] = bool(sio)
     return case
 
 
@@ -374,6 +491,9 @@ def layout_of(case: Dict[str, Any]) -> Tuple[List[List[int]], List[List[Tuple[in
     for r in routines:
         a = int(r["addr"])
         items: List[Tuple[int, int, Dict[str, Any]]] = []
+        if r.get("hle"):
+            lay.append(items)
+            continue
         for it in r["ins"]:
             if it["k"] == "call":
                 op, nop = CALL_OP[it["flavor"]]
@@ -387,6 +507,8 @@ def layout_of(case: Dict[str, Any]) -> Tuple[List[List[int]], List[List[Tuple[in
                     for i, v in enumerate((dest & 0xFF, (dest >> 8) & 0xFF,
                                            ((dest >> 16) & 0x0F) | ((it.get("hi", 0) & 0xF) << 4))):
                         mem.append([VECTOR + i, v])
+            elif it["k"] == "cj":
+                b = cj_bytes(it, a)
             else:
                 b = bytes.fromhex(it["b"])
             for i, v in enumerate(b):
@@ -404,12 +526,32 @@ def _neutral(case: Dict[str, Any], idx: int, field: str, seen: Optional[set] = N
     if idx in seen:
         return True
     seen.add(idx)
-    for it in case["routines"][idx]["ins"]:
+    r = case["routines"][idx]
+    if r.get("hle"):
+        return field == "im"  # the serviced routine reports through the carry flag; it does not touch IMR
+    for it in r["ins"]:
         if it["k"] == "plain" and not it.get(field, False):
             return False
         if it["k"] == "call" and it["flavor"] != "IR" and not _neutral(case, it["callee"], field, seen):
             return False
     return True
+
+
+def expected_steps(case: Dict[str, Any], idx: int = 0, budget: Optional[List[int]] = None) -> int:
+    """Number of instructions the program executes on its intended path (trace cores run exactly that many)."""
+    budget = budget if budget is not None else [4000]
+    r = case["routines"][idx]
+    if r.get("hle"):
+        return 1
+    n = 0
+    for it in r["ins"]:
+        n += item_steps(it)
+        if it["k"] == "call":
+            budget[0] -= 1
+            if budget[0] < 0:
+                raise HarnessError("C05 pair program too long")
+            n += expected_steps(case, it["callee"], budget)
+    return n
 
 
 class _Abort(Exception):
@@ -420,62 +562,236 @@ def _page_cls(addr: int, length: int) -> str:
     return "same-page" if ((addr & M20) >> 16) == (((addr + length) & M20) >> 16) else "next-page"
 
 
+# --- executors ------------------------------------------------------------------------------------
+
+class _PyMachine:
+    def __init__(self, case: Dict[str, Any], memlist: List[List[int]]) -> None:
+        from sc62015.pysc62015.emulator import RegisterName
+
+        self.R = RegisterName
+        self.emu, self.mem = pycore.make_emulator({"regs": case["regs"], "seed": case.get("seed", 0),
+                                                   "mem": memlist})
+
+    def step(self) -> Optional[str]:
+        return pycore.step(self.emu, self.mem).get("err")
+
+    def pc(self) -> int:
+        return int(self.emu.regs.get(self.R.PC)) & M20
+
+    def s(self) -> int:
+        return int(self.emu.regs.get(self.R.S))
+
+    def f(self) -> int:
+        return int(self.emu.regs.get(self.R.F))
+
+    def imr(self) -> int:
+        return self.mem.peek(IMR_ADDR)
+
+
+class _TraceMachine:
+    """Replays a precomputed list of per-step (pc, s, f, imr) tuples (or an error string ending the trace)."""
+
+    def __init__(self, case: Dict[str, Any], trace: List[Any]) -> None:
+        regs = case["regs"]
+        self.cur = (int(regs["PC"]) & M20, int(regs["S"]), int(regs.get("F", 0)) & 0xFF, case.get("imr", 0) & 0xFF)
+        self.trace = trace
+        self.i = 0
+
+    def step(self) -> Optional[str]:
+        if self.i >= len(self.trace):
+            return "trace exhausted"
+        t = self.trace[self.i]
+        self.i += 1
+        if isinstance(t, str):
+            return t
+        self.cur = t
+        return None
+
+    def pc(self) -> int:
+        return self.cur[0] & M20
+
+    def s(self) -> int:
+        return self.cur[1]
+
+    def f(self) -> int:
+        return self.cur[2]
+
+    def imr(self) -> int:
+        return self.cur[3]
+
+
+def _rs_trace(case: Dict[str, Any], memlist: List[List[int]], n: int) -> List[Any]:
+    regs = {k: int(v) for k, v in case["regs"].items()}
+    regs["IMR"] = case.get("imr", 0) & 0xFF
+    first = {"sess": "c05", "regs": regs, "seed": int(case.get("seed", 0)), "mem": memlist, "steps": 1,
+             "peek": [IMR_ADDR]}
+    cont = {"sess": "c05", "keep": True, "steps": 1, "peek": [IMR_ADDR]}
+    results = rsclient.shared().cpu_batch([first] + [cont] * (n - 1))
+    out: List[Any] = []
+    for r in results:
+        steps = r.get("steps") or []
+        if not steps:
+            out.append("no step executed (halted)")
+            break
+        s0 = steps[0]
+        if "err" in s0:
+            out.append(str(s0["err"]))
+            break
+        rg = s0["regs"]
+        out.append((int(rg["PC"]) & M20, int(rg["S"]), int(rg["F"]) & 0xFF, int(r["peek"][0])))
+    return out
+
+
+BIN_RT = os.path.join(rsclient.RUST_DIR, "target", "release", "vh_c05")
+_rt_proc: List[Any] = [None, None]
+
+
+def _rt_call(cases: List[Dict[str, Any]]) -> List[Dict[str, Any]]:
+    if _rt_proc[0] is None or _rt_proc[1] != os.getpid() or _rt_proc[0].poll() is not None:
+        if not os.path.exists(BIN_RT):
+            rsclient.build(force=True)
+        if not os.path.exists(BIN_RT):
+            raise HarnessError(f"{BIN_RT} was not built")
+        _rt_proc[0] = subprocess.Popen([BIN_RT], stdin=subprocess.PIPE, stdout=subprocess.PIPE, bufsize=1 << 16)
+        _rt_proc[1] = os.getpid()
+        atexit.register(rt_close)
+    proc = _rt_proc[0]
+    try:
+        proc.stdin.write((json.dumps({"cases": cases}, separators=(",", ":")) + "\n").encode())
+        proc.stdin.flush()
+        line = proc.stdout.readline()
+    except (BrokenPipeError, OSError) as exc:
+        raise HarnessError(f"vh_c05 pipe failed: {exc!r}")
+    if not line:
+        raise HarnessError(f"vh_c05 died (rc={proc.poll()})")
+    resp = json.loads(line)
+    if not resp.get("ok"):
+        raise HarnessError(f"vh_c05 failed: {resp}")
+    return resp["results"]
+
+
+def _rt_trace(case: Dict[str, Any], memlist: List[List[int]], n: int) -> List[Any]:
+    r = _rt_call([{"sio": bool(case.get("sio")), "regs": {k: int(v) for k, v in case["regs"].items()},
+                   "mem": memlist, "steps": n}])[0]
+    out: List[Any] = [(int(t[0]) & M20, int(t[1]), int(t[2]) & 0xFF, int(t[3])) for t in r["trace"]]
+    if r.get("err"):
+        out.append(str(r["err"]))
+    return out
+
+
+def rt_close() -> None:
+    if _rt_proc[0] is not None and _rt_proc[1] == os.getpid():
+        try:
+            _rt_proc[0].stdin.close()
+            _rt_proc[0].wait(timeout=5)
+        except Exception:
+            _rt_proc[0].kill()
+    _rt_proc[0] = None
+
+
+def rt_self_test() -> None:
+    """The three fixed addresses are serviced by the runtime iff the SIO stub is enabled (else: the NOP there runs)."""
+    cases = []
+    for a in HLE_ADDRS:
+        for sio in (False, True):
+            cases.append({"sio": sio, "regs": {"PC": a, "S": 0xBF000, "U": 0xBE000}, "mem": [[a, 0]], "steps": 1})
+    res = _rt_call(cases)
+    for c, r in zip(cases, res):
+        if r.get("err") or len(r["trace"]) != 1:
+            raise HarnessError(f"C05 rt self-test failed to step at {c['regs']['PC']:#x}: {r}")
+        nxt = int(r["trace"][0][0])
+        if (nxt == c["regs"]["PC"] + 1) == c["sio"]:
+            raise HarnessError(f"C05 rt self-test: address {c['regs']['PC']:#x} sio={c['sio']} went to {nxt:#x}; "
+                               "the SIO stub's serviced addresses are not what the generator assumes")
+    rt_close()
+
+
 def exec_program(case: Dict[str, Any]) -> Dict[str, Any]:
-    from sc62015.pysc62015.emulator import RegisterName
-
+    core = case.get("core", "py")
+    tag = CORE_TAG[core]
     memlist, lay = layout_of(case)
-    emu, mem = pycore.make_emulator({"regs": case["regs"], "seed": case.get("seed", 0), "mem": memlist})
-    res: Dict[str, Any] = {"viol": [], "labels": list(case.get("gen_labels", [])), "steps": 0, "pairs": 0,
-                           "top": "", "key": ""}
+    if core == "py":
+        m: Any = _PyMachine(case, memlist)
+    else:
+        n = expected_steps(case)
+        m = _TraceMachine(case, _rs_trace(case, memlist, n) if core == "rs" else _rt_trace(case, memlist, n))
+    res: Dict[str, Any] = {"viol": [], "labels": list(case.get("gen_labels", [])) + [f"core:{core}"], "steps": 0,
+                           "pairs": 0, "top": "", "key": ""}
+    if core == "rt":
+        res["labels"].append("sio:on" if case.get("sio") else "sio:off")
     routines = case["routines"]
-
-    def pc() -> int:
-        return int(emu.regs.get(RegisterName.PC)) & M20
+    pc = m.pc
+    open_calls: List[str] = []
 
     def do_step() -> None:
-        s = pycore.step(emu, mem)
+        err = m.step()
         res["steps"] += 1
-        if "err" in s:
-            res["err"] = s["err"]
+        if err is not None:
+            res["err"] = err
             raise _Abort()
 
     def ret_info(idx: int) -> Tuple[int, int, str]:
+        if routines[idx].get("hle"):
+            return int(routines[idx]["addr"]), 1, "stub-return"
         a, ln, it = lay[idx][-1]
         return a, ln, it.get("name", "?")
 
     def run_routine(idx: int, depth: int) -> None:
         for a, ln, it in lay[idx]:
             if pc() != (a & M20):
-                raise HarnessError(f"C05 pair executor lost the path at routine {idx} (pc={pc():#x}, want {a:#x})")
+                raise HarnessError(f"C05 pair executor lost the path at routine {idx} (pc={pc():#x}, want {a:#x}, "
+                                   f"core {core})")
+            if it["k"] == "cj":
+                for _ in range(item_steps(it)):
+                    do_step()
+                res["labels"].append("cj:far" if it.get("far") else "cj:near")
+                if open_calls:
+                    res["labels"].append("cj-inside:" + open_calls[-1])
+                if pc() != ((a + ln) & M20):
+                    # no statement covers a return in isolation: not judged, the program ends here
+                    res["labels"].append("cj-astray")
+                    res["astray"] = True
+                    raise _Abort()
+                continue
             if it["k"] != "call":
                 do_step()
                 if it["k"] == "plain" and pc() != ((a + ln) & M20):
                     tk = TP.tokens(bytes.fromhex(it["b"]) + G.NOP_PAD, a)
                     mn = TP.mnemonic(tk[0]) if tk else "?"
-                    res["viol"].append(Violation("pair:body", f"{mn} in callee body",
+                    res["viol"].append(Violation("pair:body", f"{tag}{mn} in callee body",
                                                  "body instruction reporting no branch left addr+len", case,
                                                  f"{it['b']} at {a:#x}: reached {pc():#x}"))
                     raise _Abort()
                 continue
             flavor = it["flavor"]
             callee = it["callee"]
+            hle = bool(routines[callee].get("hle"))
             ra, rl, rname = ret_info(callee)
             site = _page_cls(a, ln)
-            retc = "inside" if _page_cls(ra, rl) == "same-page" else "page-cross"
-            where = (f"{flavor}..{rname}" + (" pre-call" if it.get("pre") is not None else "")
+            retc = "hle" if hle else ("inside" if _page_cls(ra, rl) == "same-page" else "page-cross")
+            where = (f"{tag}{flavor}..{rname}" + (" pre-call" if it.get("pre") is not None else "")
                      + (" pre-ret" if rl > 1 else "") + f" site:{site} ret:{retc}")
-            s0 = int(emu.regs.get(RegisterName.S))
-            f0 = int(emu.regs.get(RegisterName.F))
-            imr0 = mem.peek(IMR_ADDR)
+            s0 = m.s()
+            f0 = m.f()
+            imr0 = m.imr()
             res["labels"] += [f"pair:{flavor}", f"site:{addr_class(a, ln)}", f"site-ret-addr:{site}",
                               f"ret:{retc}", f"retaddr:{addr_class(ra, rl)}", f"depth:{depth}"]
+            kinds = "".join({"CALL": "n", "CALLF": "f", "IR": "i"}[k] for k in open_calls)
+            if "n" in kinds and "f" in kinds:
+                res["labels"].append("open:near+far")
+            if flavor == "CALL" and "n" in kinds and "f" in kinds[kinds.index("n"):]:
+                res["labels"].append("near-under-far-under-near")
+            if hle:
+                res["labels"].append(f"hle:{flavor}:open-" + ("mixed" if "n" in kinds and "f" in kinds else
+                                                              "near" if "n" in kinds else "far" if "f" in kinds
+                                                              else "none"))
             if it.get("pre") is not None:
                 res["labels"].append("pre-call")
             if rl > 1:
                 res["labels"].append("pre-ret")
             if it.get("hi"):
                 res["labels"].append("far-target-high-nibble")
-            if len(lay[callee]) == 1:
+            if not hle and len(lay[callee]) == 1:
                 res["labels"].append("body:empty")
             do_step()
             dest = int(routines[callee]["addr"]) & M20
@@ -483,17 +799,23 @@ def exec_program(case: Dict[str, Any]) -> Dict[str, Any]:
                 res["viol"].append(Violation("pair:entry", where, diffclass(dest, pc(), a + ln), case,
                                              f"{flavor} at {a:#x}: callee at {dest:#x}, PC after the call {pc():#x}"))
                 raise _Abort()
-            run_routine(callee, depth + 1)
+            open_calls.append(flavor)
+            if hle:
+                do_step()  # the runtime services the routine and performs its return
+            else:
+                run_routine(callee, depth + 1)
+            open_calls.pop()
             res["pairs"] += 1
             exp = (a + ln) & M20
-            detail = (f"{flavor} at {a:#x} (len {ln}) -> {dest:#x}, {rname} at {ra:#x}: resumed at {pc():#x} "
-                      f"(expected {exp:#x}); S {s0:#x}->{int(emu.regs.get(RegisterName.S)):#x}; "
-                      f"F {f0:#04x}->{int(emu.regs.get(RegisterName.F)):#04x}; IMR {imr0:#04x}->{mem.peek(IMR_ADDR):#04x}")
+            detail = (f"[{core}] {flavor} at {a:#x} (len {ln}) -> {dest:#x}, {rname} at {ra:#x}: resumed at "
+                      f"{pc():#x} (expected {exp:#x}); S {s0:#x}->{m.s():#x}; "
+                      f"F {f0:#04x}->{m.f():#04x}; IMR {imr0:#04x}->{m.imr():#04x}; open calls "
+                      f"{'/'.join(open_calls) or '-'}")
             if pc() != exp:
                 d = diffclass(exp, pc())
                 res["viol"].append(Violation("pair:resume", where, "resume address: " + d, case, detail))
                 raise _Abort()
-            s1 = int(emu.regs.get(RegisterName.S))
+            s1 = m.s()
             if s1 != s0:
                 d = s20(s1 - s0)
                 res["viol"].append(Violation("pair:S", where, f"S after return = S before call{d:+d}"
@@ -503,14 +825,14 @@ def exec_program(case: Dict[str, Any]) -> Dict[str, Any]:
             check_i = flavor == "IR" or _neutral(case, callee, "im")
             if check_f:
                 res["labels"].append("F-compared")
-                f1 = int(emu.regs.get(RegisterName.F))
+                f1 = m.f()
                 if f1 != f0:
                     bits = [n for n, mk in (("C", 1), ("Z", 2), ("high", 0xFC)) if (f0 ^ f1) & mk]
                     res["viol"].append(Violation("pair:F", where, "F not restored: " + "+".join(bits), case, detail))
                     raise _Abort()
             if check_i:
                 res["labels"].append("IMR-compared")
-                i1 = mem.peek(IMR_ADDR)
+                i1 = m.imr()
                 if i1 != imr0:
                     sym = "IMR not restored: only bit 7 (IRM) differs" if (i1 ^ imr0) == 0x80 else "IMR not restored"
                     res["viol"].append(Violation("pair:IMR", where, sym, case, detail))
@@ -518,17 +840,18 @@ def exec_program(case: Dict[str, Any]) -> Dict[str, Any]:
 
     top = lay[0][0][2]
     res["top"] = top["flavor"]
-    body_hash = jhash([[it.get("b"), it.get("flavor"), it.get("pre")] for r in routines for it in r["ins"]], 8)
+    body_hash = jhash([[it.get("b"), it.get("flavor"), it.get("pre"), it.get("far"), it.get("gap"),
+                        r.get("hle") and r.get("addr")] for r in routines for it in (r["ins"] or [{}])], 8)
     a0, l0, _ = lay[0][0]
     ra0, rl0, _ = ret_info(top["callee"])
-    res["key"] = (f"{top['flavor']}:{addr_class(a0, l0)}:{addr_class(ra0, rl0)}:"
-                  f"{'x' if 'S:cross-page' in res['labels'] else 'i'}:{body_hash}")
+    res["key"] = (f"{core}{'+sio' if case.get('sio') else ''}:{top['flavor']}:{addr_class(a0, l0)}:"
+                  f"{addr_class(ra0, rl0)}:{'x' if 'S:cross-page' in res['labels'] else 'i'}:{body_hash}")
     try:
         run_routine(0, 0)
     except _Abort:
         pass
     if "err" in res:
-        res["labels"].append("python-exception")
+        res["labels"].append("python-exception" if core == "py" else f"{core}-error")
     return res
 
 
@@ -558,11 +881,16 @@ def shrink(v: Violation) -> Violation:
         changed = False
         for ri in range(1, len(cur["routines"])):
             r = cur["routines"][ri]
+            if r.get("hle"):
+                continue
             groups: List[List[int]] = []
             seen_w: Dict[int, List[int]] = {}
             for i, it in enumerate(r["ins"]):
                 if it["k"] == "call":
                     groups.append([i])  # dropping a nested call keeps the body stack-neutral
+                    continue
+                if it["k"] == "cj":
+                    groups.append([i])  # a computed jump to the next item is stack-neutral on its own
                     continue
                 if it["k"] != "plain":
                     continue
